@@ -66,3 +66,21 @@ def atom_text(atom, brackets):
 def atom_to_smiles(atom: 'Atom', brackets: bool = True):
     requires(atom_fields_ok(atom) and not atom.is_aromatic)
     ensures(typed(result, 'str') and result == atom_text(atom, brackets), tag="C10:standard-atom-spelling")
+
+
+@contract("selfies/utils/smiles_utils.py::smiles_to_atom", props=["C09", "C10", "C18"])
+def smiles_to_atom(atom_symbol: str):
+    # assumption: ASCII input of bounded length (Unicode digits / the 4300-digit limit are recorded known findings)
+    requires(ascii_str(atom_symbol) and 1 <= len(atom_symbol) and len(atom_symbol) <= 4000)
+    returns('None|Atom')
+    # total: no exception at all for any non-empty ASCII symbol text
+    ensures(typed(result, 'None') or (fresh(result) and typed(result.element, 'str') and typed(result.is_aromatic, 'bool')
+                                     and typed(result.isotope, 'int|None') and typed(result.chirality, 'str|None')
+                                     and typed(result.h_count, 'int|None') and typed(result.charge, 'int')
+                                     and typed(result.index, 'None')), tag="C09:atom-or-none")
+    ensures(implies(not typed(result, 'None') and typed(result.h_count, 'None'),
+                    typed(result.isotope, 'None') and typed(result.chirality, 'None') and result.charge == 0),
+            tag="C10:organic-subset-atoms-carry-no-other-specification")
+    ensures(implies(not typed(result, 'None') and typed(result.h_count, 'int'), result.h_count >= 0), tag="C10:h-count-nonnegative")
+    ensures(implies(not typed(result, 'None') and atom_symbol.startswith("[") and atom_symbol.endswith("]"),
+                    re_fullmatch(SMILES_BRACKETED_ATOM_PATTERN, atom_symbol)), tag="C09:bracket-atoms-match-the-grammar")
